@@ -508,6 +508,13 @@ func checkC16(c *Ctx, r *Report) {
 	}
 	r.Rule("C16-R1", "each return of the URL builder yields a copy of *endpoint.URL (Alloc initialised from it) or endpoint.URL.ResolveReference(path-only reference); no store to Scheme/Host/User/Opaque of the result", 3)
 	r.Rule("C16-R3", "each return of the URL builder is preceded by a store RawQuery ← inbound request's URL.RawQuery into the returned URL", 3)
+	r.Rule("C16-R10", "on the builder's return taken when the endpoint has preserve_path set (and a non-root base path), every value that can end up as the upstream Path is path.Join(endpoint.URL.Path, …): the request path is always placed under the configured base path, also when it happens to begin with the same segments", 1)
+	nPreserve := 0
+	defer func() {
+		if nPreserve == 0 {
+			r.Undecided("C16-R10", "preserve-path-return", token.NoPos, "no return of the URL builder is control-dependent on Endpoint.PreservePath")
+		}
+	}()
 	r.Rule("C16-R2", "each value assigned to the returned URL's Path that derives from the inbound request path and is joined under the endpoint's base path is sanitised (path.Clean(\"/\"+·) applied, or the join is control-dependent on the negative of a dot-segment test)", 1)
 	ep := bt.Params[1]
 	for _, ret := range returnsOf(bt) {
@@ -588,6 +595,61 @@ func checkC16(c *Ctx, r *Report) {
 			r.OK("C16-R3", key, retPos(bt, ret), "RawQuery ← r.URL.RawQuery")
 		} else {
 			r.Bad("C16-R3", key, retPos(bt, ret), "the client's query string is not copied verbatim into the upstream URL on this return")
+		}
+		// a Path assigned from a merge of alternatives: look at each alternative
+		{
+			var flat []ssa.Value
+			seenPV := map[ssa.Value]bool{}
+			var add func(v ssa.Value)
+			add = func(v ssa.Value) {
+				if v == nil || seenPV[v] {
+					return
+				}
+				seenPV[v] = true
+				if ph, ok := v.(*ssa.Phi); ok {
+					for _, e := range ph.Edges {
+						add(e)
+					}
+					return
+				}
+				flat = append(flat, v)
+			}
+			for _, pv := range pathVals {
+				add(pv)
+			}
+			pathVals = flat
+		}
+		// R10: on the preserve_path return every alternative is a join under the endpoint's base path
+		preserve := false
+		for _, cf := range normFacts(condFacts(ret.Block())) {
+			if cf.True && mentionsField(cf.Cond, pkgDomain, "Endpoint", "PreservePath", 2) {
+				preserve = true
+			}
+		}
+		if preserve {
+			nPreserve++
+			k10 := fname(bt) + ":preserve-path-under-base"
+			bad := ""
+			for _, pv := range pathVals {
+				call, ok := pv.(*ssa.Call)
+				if ok {
+					if ci := describeCall(&call.Call); ci.Pkg == "path" && ci.Name == "Join" {
+						el := variadicElemsOrdered(call.Call.Args[0])
+						if len(el) > 0 && el[0] != nil && mentionsField(el[0], "net/url", "URL", "Path", 2) && mentionsField(el[0], pkgDomain, "Endpoint", "URL", 4) {
+							continue
+						}
+					}
+				}
+				bad = c.Pos(pv.Pos())
+			}
+			if len(pathVals) == 0 {
+				bad = "no Path assignment"
+			}
+			if bad == "" {
+				r.OK("C16-R10", k10, retPos(bt, ret), "with preserve_path every Path alternative is path.Join(endpoint base path, …)")
+			} else {
+				r.Bad("C16-R10", k10, retPos(bt, ret), "with preserve_path some alternative of the upstream Path is not a join under the endpoint's base path ("+bad+"): a request whose path happens to start with the base path is sent outside / without the configured base")
+			}
 		}
 		// R2 only for path.Join sinks
 		for _, pv := range pathVals {
@@ -699,6 +761,8 @@ func checkC16(c *Ctx, r *Report) {
 	addMutants(
 		Mutant{Prop: "C16", Name: "host-from-request", File: "internal/adapter/proxy/common/url_builder.go", Rule: "C16-R1", Canary: true,
 			Old: "		u := *endpoint.URL\n		u.Path = targetPath\n", New: "		u := *endpoint.URL\n		u.Path = targetPath\n		if r.URL.Host != \"\" {\n			u.Host = r.URL.Host\n		}\n"},
+		Mutant{Prop: "C16", Name: "preserve-path-skips-base-on-same-prefix", File: "internal/adapter/proxy/common/url_builder.go", Rule: "C16-R10",
+			Old: "		u := *endpoint.URL\n		u.Path = joined\n", New: "		if strings.HasPrefix(targetPath, endpoint.URL.Path) {\n			joined = targetPath\n		}\n		u := *endpoint.URL\n		u.Path = joined\n"},
 		Mutant{Prop: "C16", Name: "query-dropped", File: "internal/adapter/proxy/common/url_builder.go", Rule: "C16-R3",
 			Old: "	u.RawQuery = r.URL.RawQuery // always copy; empty is fine\n", New: ""},
 		Mutant{Prop: "C16", Name: "health-url-concat", File: "internal/adapter/discovery/repository.go", Rule: "C16-R4",
